@@ -204,7 +204,7 @@ class HeapMixin(object):
       term = z3.Select(arr, obj.t)
       if is_ref and z3.is_const(arr) and arr.decl().name().startswith('H0_'):
         # ground instance of the pre-state freshness axiom (saves the solver an instantiation)
-        st.axiom(z3.And(term >= 0, term < ALLOC_BASE_))
+        st.axiom(z3.Implies(obj.t < ALLOC_BASE_, z3.And(term >= 0, term < ALLOC_BASE_)))
       if is_ref and not kind.nullable:
         st.axiom(term != 0)          # shape invariant: the field is declared non-optional
       v = self.wrap(st, term, kind)
@@ -289,7 +289,7 @@ class HeapMixin(object):
     arr = st.harr(('dict', 'keys'), I, is_ref=True)
     term = z3.Select(arr, d.t)
     if z3.is_const(arr) and arr.decl().name().startswith('H0_'):
-      st.axiom(z3.And(term >= 0, term < ALLOC_BASE_))
+      st.axiom(z3.Implies(d.t < ALLOC_BASE_, z3.And(term >= 0, term < ALLOC_BASE_)))
     return VRef('list', term, elem=getattr(d, 'keykind', None))
 
   def dict_set_raw(self, st, d, dom=None, val=None, keys=None):
